@@ -143,6 +143,9 @@ func (vc *VC) evalCall1(s *State, call *ast.CallExpr, want int) []*Term {
 // method without contract), under the callee expression's source text: number of calls so far, the arguments and
 // the results of the last one. Spec builtins ncalls("f"), callarg("f", i), callret("f", i) read it.
 func (vc *VC) recordCall(s *State, name string, sig *types.Signature, args, res []*Term) {
+	if vc.fn == nil || vc.fn.Spec == nil || !vc.fn.Spec.WatchCalls[name] {
+		return // only callees the contract under verification talks about
+	}
 	k := "$call." + name
 	if res == nil {
 		// before the call: count it, keep the arguments; the results of a call that panics are unconstrained
@@ -931,6 +934,9 @@ func (vc *VC) applySpecNoBody(s *State, call *ast.CallExpr, key string, spec *Fu
 	for i, r := range spec.Requires {
 		vc.oblige(s, "call-requires", fmt.Sprintf("%s:pre%d", site, i+1), "precondition of "+shortKey(key)+": "+r.Src, call.Pos(), env.evalBool(r))
 	}
+	if call != nil {
+		vc.recordCall(s, exprStr(call.Fun), sig, args, nil)
+	}
 	pre := s.clone()
 	vc.callHavoc(s, spec, fi, env.inState(pre))
 	res := make([]*Term, sig.Results().Len())
@@ -967,6 +973,9 @@ func (vc *VC) applySpecNoBody(s *State, call *ast.CallExpr, key string, spec *Fu
 			continue
 		}
 		s.assume(post.evalBool(e))
+	}
+	if call != nil {
+		vc.recordCall(s, exprStr(call.Fun), sig, nil, res)
 	}
 	return res
 }
